@@ -156,6 +156,10 @@ def gen(t, tier):
     sc['restore'] = [[t.choice(max(1, len(sc['tiles']))), t.pick([1.0, 5, 3600, 86400, 14 * 86400]), bool(t.chance(0.6))]
                      for _ in range(t.pick([0, 0, 1, 2, 3]))] if has_ts else []
     sc['old_dirs'] = b['type'] == 'file' and bool(t.chance(0.2))
+    # the cache has a coverage of its own (it was narrowed to a region after the tiles were stored): what the cleanup task
+    # selects is still what has to go
+    sc['cache_coverage'] = [t.choice(5) / 8.0, t.choice(5) / 8.0, t.randint(4, 8) / 8.0, t.randint(4, 8) / 8.0] \
+        if t.chance(0.25) else None
     sc['vanish'] = [t.choice(1000), t.choice(60)] if (b['type'] == 'file' and not b.get('link') and t.chance(0.25)) else None
     sc['slow_remove'] = t.pick([None] * 9 + [3.0, 7.0])
     if deep:
@@ -185,7 +189,7 @@ def shrink(sc):
                 yield c
         size //= 2
     for key, simple in (('coverage', None), ('cov_srs', '3857'), ('meta_size', [1, 1]), ('salt', None), ('after', 0.0),
-                        ('cache_refresh', None), ('pre_task', None), ('old_dirs', False), ('slow_remove', None), ('vanish', None)):
+                        ('cache_refresh', None), ('cache_coverage', None), ('pre_task', None), ('old_dirs', False), ('slow_remove', None), ('vanish', None)):
         if sc.get(key, simple) != simple:
             c = copy.deepcopy(sc)
             c[key] = simple
@@ -284,6 +288,13 @@ def _run(sc, tape):
         cache_conf['table_name'] = 'tiles'
     conf = F.base_conf(cache_conf, meta_size=sc['meta_size'], link=link or False, refresh_before=sc.get('cache_refresh'))
     conf['grids']['g'] = dict(sc['grid'])
+    if sc.get('cache_coverage'):
+        ext = sc['grid'].get('bbox') or [-U.H, -U.H, U.H, U.H]
+        f = sc['cache_coverage']
+        conf['caches']['c1']['cache']['coverage'] = {
+            'bbox': [ext[0] + f[0] * (ext[2] - ext[0]), ext[1] + f[1] * (ext[3] - ext[1]),
+                     ext[0] + max(f[2], f[0] + 0.125) * (ext[2] - ext[0]), ext[1] + max(f[3], f[1] + 0.125) * (ext[3] - ext[1])],
+            'srs': sc['grid'].get('srs', 'EPSG:3857')}
     # a second cache next to the first one: a foreign object for the cleanup of c1
     conf['caches']['c2'] = {'grids': ['g'], 'sources': ['src'], 'format': 'image/png',
                             'cache': {'type': 'file', 'directory_layout': 'tc'}}
